@@ -1,8 +1,9 @@
 import H4.VGroup
 import H4.Gen.Fn.Vgp
+import H4.Gen.Fn.Vgp3
 import H4.Driver.Util
 /-! Line protocol of engine `vg` (C08).  Stateful ops are parsed into `H4.VGroup.Op` and run by `H4.VGroup.step`;
-    `diskrec` reads the model's copy of the DFTAG_VG element; `packrec`/`unpackrec` are the stateless codec. -/
+    `diskrec` reads the model's copy of the DFTAG_VG element; `packrec`/`unpackrec`/`unpackvg` are the stateless codec. -/
 namespace H4.Driver
 open H4.VGroup
 
@@ -103,6 +104,62 @@ def pack (g : VG) (model : Bytes) (mver : Nat) : String :=
   else s!" GEN={toHex (toBytes (s.buf.take (s.size.getD 0 0).toNat))}/{s.size}/{s.vg_version}/tail={s.buf.drop model.length}"
 end GenVg
 
+/-! `vunpackvg` as TRANSLATED from the current C text of vgp.c (`H4.Gen.Fn.Vgp3`) is run on the bytes of every `unpackvg` line, on a
+    zeroed `*vg` (what `VIget_vgroup_node` hands to `VPgetinfo`) and a buffer that ENDS with the record (`len` cells).  The harness
+    prints `refused` when the real call left `buf[0..len)` (the child died in a guard page) or returned FAIL; the translated run must
+    then report `ub` or `ret = FAIL`, and otherwise leave the fields the real call left (` GEN=…` on any difference). -/
+namespace GenVgU
+open H4.Gen.Fn.Vgp3
+def u16 (x : Int) : Nat := (x % 65536).toNat
+def cstrOf (null : Bool) (l : List Int) : Option Bytes :=
+  if null then none else some ((l.takeWhile (· ≠ 0)).map fun x => UInt8.ofNat x.toNat)
+def run (b : Bytes) : vunpackvg.St :=
+  vunpackvg (fuel := b.length + 1) (vg_version := 0) (vg_more := 0) (vg_nvelt := 0) (vg_msize := 0) (vg_tag_null := true) (vg_tag := [])
+    (vg_ref_null := true) (vg_ref := []) (vg_vgname_null := true) (vg_vgname := []) (vg_vgclass_null := true) (vg_vgclass := [])
+    (vg_extag := 0) (vg_exref := 0) (vg_flags := 0) (vg_nattrs := 0) (vg_alist_null := true) (vg_alist_atag := []) (vg_alist_aref := [])
+    (buf := b.map fun x => (x.toNat : Int)) (len := b.length)
+/-- the answer of the harness's `print_vgstruct` on the state the translated function leaves -/
+def answer (s : vunpackvg.St) : String :=
+  if s.ub || s.ret == -1 then "refused" else
+  let n := s.vg_nvelt.toNat
+  let g : VG := { members := ((s.vg_tag.take n).map u16).zip ((s.vg_ref.take n).map u16),
+                  name := cstrOf s.vg_vgname_null s.vg_vgname, cls := cstrOf s.vg_vgclass_null s.vg_vgclass,
+                  extag := u16 s.vg_extag, exref := u16 s.vg_exref, version := u16 s.vg_version, more := u16 s.vg_more,
+                  flags := s.vg_flags.toNat,
+                  attrs := if s.vg_nattrs ≤ 0 || s.vg_alist_null then []
+                           else ((s.vg_alist_atag.take s.vg_nattrs.toNat).map u16).zip ((s.vg_alist_aref.take s.vg_nattrs.toNat).map u16) }
+  showVG g
+/-- the attribute count of a version-4 record with `VG_ATTR_SET` whose fields up to `nattrs` lie inside the record (found with the
+    model's own primitives), when it is positive and larger than the record: the C code then allocates `nattrs` cells before it runs
+    off the record; the translated run would build a list of that size, so it is skipped (the real call was refused in the guard) -/
+def hugeAlloc (b : Bytes) : Bool :=
+  let na : Option Nat := do
+    if b.length < 5 then none
+    let (version, _) ← getU16 (b.drop (b.length - 5))
+    if toI16 version ≠ 4 then none
+    let (n, r) ← getU16 b
+    let (_, r) ← getU16s n r
+    let (_, r) ← getU16s n r
+    let (_, r) ← getStr r
+    let (_, r) ← getStr r
+    let (_, r) ← getU16 r
+    let (_, r) ← getU16 r
+    let (flags, r) ← getU32 r
+    if flags % 2 = 0 then none
+    let (na, _) ← getU32 r
+    some na
+  match na with
+  | some na => na < 2147483648 && na > b.length
+  | none => false
+def unpack (b : Bytes) (model : String) : String :=
+  if hugeAlloc b then "" else
+  let s := run b
+  let a := answer s
+  if a == "refused" then (if model == "refused" then "" else " GEN=refused")
+  else if s.oof then " GEN=oof"
+  else if a == model then "" else s!" GEN={a}"
+end GenVgU
+
 def stepVg (s : File) (args : List String) : File × String :=
   match args with
   | ["diskrec", r] => match r.toNat? with
@@ -121,6 +178,11 @@ def stepVg (s : File) (args : List String) : File × String :=
     | _, _, _, _, _, _, _, _, _ => (s, "bad-op")
   | ["unpackrec", h] => match parseHex h with
     | some b => (s, match vunpackvg b with | some g => showVG g | none => "fail")
+    | none => (s, "bad-op")
+  | ["unpackvg", h] => match parseHex h with
+    | some b =>
+      let model := match vunpackvg b with | some g => showVG g | none => "refused"
+      (s, model ++ GenVgU.unpack b model)
     | none => (s, "bad-op")
   | _ => match parseVgOp args with
     | some op => let (s', o) := step s op; (s', showOut o)
